@@ -150,7 +150,7 @@ def run(tier, seed):
     vlib.log("accounting: %d cases compared, %d pipeline-failed, %d mismatches" % (compared, refused, mism))
     if compared < len(scs) // 2:
         raise vlib.Infra("accounting family: only %d of %d cases ran to a healthy end" % (compared, len(scs)))
-    c01.standard_families(chk, tier, seed, rng, nrand_quick=40, nrand_thorough=1500, explore=False)
+    c01.standard_families(chk, tier, seed, rng, nrand_quick=40, nrand_thorough=1500, explore=False, matrix=(2, False))
     chk.validate()
 
     def nontrivial(sc, tr):
